@@ -9,12 +9,15 @@ import (
 // Deliberately boring: no index, no bisection, linear scans.
 type Model struct {
 	Objs map[string]*Rec
+	// UniqueP: the configuration declares U16 unique (custom schema)
+	UniqueP bool
 }
 
 func NewModel() *Model { return &Model{Objs: map[string]*Rec{}} }
 
 func (m *Model) Clone() *Model {
 	c := NewModel()
+	c.UniqueP = m.UniqueP
 	for u, r := range m.Objs {
 		c.Objs[u] = cloneRec(r)
 	}
@@ -37,11 +40,16 @@ func (m *Model) conflict(uuid string, r *Rec) bool {
 		if u == uuid {
 			continue
 		}
-		if o.K == r.K || o.N == r.N {
+		if o.K == r.K || o.N == r.N || (m.UniqueP && o.P == r.P) {
 			return true
 		}
 	}
 	return false
+}
+
+// clash tells whether two canonical records may not be stored together.
+func (m *Model) clash(a, b *Rec) bool {
+	return a.K == b.K || a.N == b.N || (m.UniqueP && a.P == b.P)
 }
 
 // expectSingle returns the expected outcome class of InsertOrUpdate(r) where r
